@@ -285,6 +285,8 @@ def run_case(ck, desc):
     pvt_own = {k: (lambda x, k=k: np.interp(x, P, cols[k])) for k in ("Bo", "Bg", "Bw", "Rs", "Rv", "mu_o", "mu_g", "mu_w")}
     lam = _mobility(P, So, pvt_own, kr_own, dens)
     _common(ck, desc, P, lam, got, "from_table")
+    if int(desc["phi"] * 1e4) % 3 == 0:
+        tables.probe_copies(ck, desc, obj, np.concatenate([P, 0.5 * (P[1:] + P[:-1])]))
     # the public transform asked directly, with the object's own (tabulated) look-ups, on PART of the table - the
     # rows from a frac-face pressure upwards: zero at the first pressure it is given, the integral from there on
     a_ = max(1, len(P) // 4)
